@@ -489,6 +489,7 @@ expandfunc(struct macro *m)
 	struct macroparam *p;
 	struct macroarg *arg;
 	struct array str, tok;
+	struct location strloc;
 	size_t i, depth, paren;
 	struct token *t, cur;
 
@@ -503,6 +504,7 @@ expandfunc(struct macro *m)
 		if (p->flags & PARAMSTR) {
 			str = (struct array){0};
 			arrayaddbuf(&str, "\"", 1);
+			strloc = t->loc;
 		}
 		arg[i].ntoken = 0;
 		for (;;) {
@@ -534,6 +536,7 @@ expandfunc(struct macro *m)
 			arrayaddbuf(&str, "\"", 2);
 			arg[i].str = (struct token){
 				.kind = TSTRINGLIT,
+				.loc = strloc,
 				.lit = str.val,
 			};
 		}
